@@ -346,8 +346,8 @@ type tunIn struct {
 	DynRoute  string   `json:"dynroute"` // dyn: "full" (ip:port route) | "port"
 	Csegs     []segJ   `json:"csegs"`    // client segments, optionally a terminal {"e":"eof"|"err"}
 	Usegs     []string `json:"usegs"`    // upstream segments (hex)
-	Order     string   `json:"order"`    // client | upstream | halfclose
-	Reply     []string `json:"reply"`    // halfclose: what the upstream sends after it has seen EOF
+	Order     string   `json:"order"`    // client | upstream | halfclose | halfidle
+	Reply     []string `json:"reply"`    // halfclose/halfidle: what the upstream sends after it has seen EOF
 	Paced     bool     `json:"paced"`    // tcp transport: 1 ms between client writes
 	DialMs    int      `json:"dial_ms,omitempty"`   // configured DialTimeout in ms (0: generous default)
 	PauseMs   int      `json:"pause_ms,omitempty"`  // the client pauses this long after its first `hold` segments
@@ -492,8 +492,12 @@ func runTunnelOnce(raw json.RawMessage, attempt int) (interface{}, error) {
 	if err != nil {
 		return nil, err
 	}
-	if in.Order != "client" && in.Order != "upstream" && in.Order != "halfclose" {
+	if in.Order != "client" && in.Order != "upstream" && in.Order != "halfclose" && in.Order != "halfidle" {
 		return nil, errors.New("bad order")
+	}
+	rlen := 0
+	for _, x := range reply {
+		rlen += len(x)
 	}
 
 	if in.Burst < 0 || in.Burst > 64<<20 || in.PauseMs < 0 || in.PauseMs > 2000 || in.DialMs < 0 || in.Hold < 0 {
@@ -653,13 +657,19 @@ func runTunnelOnce(raw json.RawMessage, attempt int) (interface{}, error) {
 			defer func() { recover() }()
 			h.ServeTCP(wsc)
 		}()
-		must("the earlier connection to be served", waitFor(hardT, nil, chanClosed(wdone)))
-		if warmLookup.Load() == 2 && herr == nil {
+		// routed: the upstream reads the client's stream to its end, then finishes too (a handler that passes the
+		// client's EOF on waits for that); not routed: ServeTCP simply returns
+		waitFor(hardT, wdone, func() bool { return warmLookup.Load() == 2 })
+		if warmLookup.Load() == 2 {
 			// dialled (the listener is listening): accepted, and read to the end
-			if st := waitFor(hardT, nil, wu.isAccepted); st == wOK {
-				must("the upstream to see the earlier connection end", waitFor(hardT, nil, wu.ep.ended))
+			if waitFor(hardT, wdone, wu.isAccepted) == wOK {
+				must("the upstream to see the earlier connection's stream end", waitFor(hardT, nil, wu.ep.ended))
+				if c, ok := wu.ep.c().(*net.TCPConn); ok {
+					c.CloseWrite()
+				}
 			}
 		}
+		must("the earlier connection to be served", waitFor(hardT, nil, chanClosed(wdone)))
 		wsc.Close()
 		wu.close()
 		if herr != nil {
@@ -679,6 +689,9 @@ func runTunnelOnce(raw json.RawMessage, attempt int) (interface{}, error) {
 	var cc net.Conn
 	var cep endpoint
 	done := make(chan struct{})
+	hdone := done // the handler has returned (tcp transport: its own channel, `done` stays open there)
+	var hdoneOnce sync.Once
+	var srv *tcp.Server
 	cwritten := make(chan struct{}) // tcp transport: the client has written all its segments
 	clientRecv := func() int { return cep.n() }
 	if in.Transport == "script" {
@@ -691,7 +704,12 @@ func runTunnelOnce(raw json.RawMessage, attempt int) (interface{}, error) {
 			h.ServeTCP(sc)
 		}()
 	} else {
-		srv := &tcp.Server{Handler: h, ReadTimeout: time.Duration(in.RtMs) * time.Millisecond, WriteTimeout: time.Duration(in.WtMs) * time.Millisecond}
+		hdone = make(chan struct{})
+		inner := h
+		srv = &tcp.Server{Handler: tcp.HandlerFunc(func(c net.Conn) error {
+			defer hdoneOnce.Do(func() { close(hdone) })
+			return inner.ServeTCP(c)
+		}), ReadTimeout: time.Duration(in.RtMs) * time.Millisecond, WriteTimeout: time.Duration(in.WtMs) * time.Millisecond}
 		go srv.Serve(pl)
 		defer srv.Close()
 		cc, err = net.DialTimeout("tcp", pl.Addr().String(), waitT)
@@ -774,6 +792,7 @@ func runTunnelOnce(raw json.RawMessage, attempt int) (interface{}, error) {
 	}
 
 	served := true
+	halfIdleStuck := false
 	clientEnded := func() bool {
 		if sc != nil {
 			select {
@@ -822,16 +841,38 @@ func runTunnelOnce(raw json.RawMessage, attempt int) (interface{}, error) {
 			writeSegs(up.ep.c(), reply, false)
 			finishUpstream()
 		}
+	case "halfidle":
+		// the client half-closes, the upstream answers and then stays idle without finishing; once the reply has
+		// arrived the server closes the client connection (what Server.Shutdown/Close do): the handler has to end
+		finishClient()
+		if up.isAccepted() {
+			must("the upstream to see the end of the client's stream", waitFor(hardT, nil, up.ep.ended))
+			writeSegs(up.ep.c(), reply, false)
+			softWait(attempt, hdone, func() bool { return clientRecv() >= ulen+rlen })
+		}
+		if sc != nil {
+			sc.Close()
+		} else {
+			srv.Close()
+		}
+		if waitFor(softT(attempt), nil, chanClosed(hdone)) != wOK {
+			halfIdleStuck = true
+		}
 	}
-	st := waitFor(hardT, nil, clientEnded)
-	must("the proxy to end the client's connection", st)
+	st := wOK
+	if halfIdleStuck {
+		st = wTimeout // the handler outlives its client connection: an observation, reported as served=false
+	} else {
+		st = waitFor(hardT, nil, clientEnded)
+		must("the proxy to end the client's connection", st)
+	}
 	served = st == wOK
 	if sc != nil {
 		sc.Close()
 	} else {
 		cc.Close()
 	}
-	if up.isAccepted() {
+	if up.isAccepted() && !halfIdleStuck {
 		must("the upstream to see its connection end", waitFor(hardT, nil, up.ep.ended))
 	}
 	if herr != nil {
@@ -859,7 +900,7 @@ func runTunnelOnce(raw json.RawMessage, attempt int) (interface{}, error) {
 	for _, u := range usegs {
 		wantCl = append(wantCl, u...)
 	}
-	if in.Order == "halfclose" {
+	if in.Order == "halfclose" || in.Order == "halfidle" {
 		for _, u := range reply {
 			wantCl = append(wantCl, u...)
 		}
@@ -877,7 +918,7 @@ func runTunnelOnce(raw json.RawMessage, attempt int) (interface{}, error) {
 	wantUp = append(wantUp, cstream...)
 	expected := !expectTunnel
 	if mainLookup.Load() == 2 {
-		expected = bytes.Equal(upb, wantUp) && bytes.Equal(clb, wantCl) && bgot == in.Burst && bok
+		expected = bytes.Equal(upb, wantUp) && bytes.Equal(clb, wantCl) && bgot == in.Burst && bok && served
 	}
 	if in.Warm != nil && warmLookup.Load() == 2 {
 		wb, _ := hex.DecodeString(warmOut.WarmUp)
@@ -1049,7 +1090,7 @@ func genTunnelWith(r *hx.Rand, order string) tunIn {
 		}
 	}
 	in.Usegs = hexes(cut(r, patBytes(r, size(r)), r.Intn(3)))
-	if order == "halfclose" {
+	if order == "halfclose" || order == "halfidle" {
 		in.Reply = hexes(cut(r, patBytes(r, r.Range(1, 40)), r.Intn(2)))
 	}
 	switch {
@@ -1123,8 +1164,14 @@ func genTrickle(r *hx.Rand, in *tunIn, hello []byte) {
 	}
 }
 
+// genHalfClose: are the half-close orders generated? While D14 was a recorded finding they lived in the corpus
+// only (a known failing class must not eat the budget); since the repair they are ordinary closing orders.
+const genHalfClose = true
+
 func genTunnel(r *hx.Rand, i int) interface{} {
-	// the half-close order is a recorded finding (D14): it lives in the corpus, not in the generator
+	if genHalfClose {
+		return genTunnelWith(r, []string{"client", "client", "client", "upstream", "upstream", "upstream", "halfclose", "halfclose", "halfidle"}[r.Intn(9)])
+	}
 	return genTunnelWith(r, []string{"client", "upstream"}[r.Intn(2)])
 }
 
